@@ -20,7 +20,7 @@ Definition enc_starter (x : starter_pc) : nat :=
 Definition enc_core (x : core_pc) : nat :=
   match x with CNone => 0 | CAtSel => 1 | CSel => 2 | CProc => 3 | CAtBlk => 4 | CAtRet => 5 | CAtRD => 6 | CDoRD => 7 | CDone => 8 end.
 Definition enc_prod (x : prod_pc) : nat :=
-  match x with PNone => 0 | PLoop => 1 | PSend BNormal => 2 | PSend BErr => 3 | PDone => 4 end.
+  match x with PNone => 0 | PLoop => 1 | PSend BNormal => 2 | PSend BErr => 3 | PDone => 4 | PClosing => 5 end.
 Definition enc_stops (m : stops) : list nat :=
   [n_idle m; n_locked m; n_switch m; n_atabort m; n_wait m; n_atwaited m; n_post m; n_atret m;
    n_ret_ok m; n_ret_err m; n_done_ok m; n_done_err m].
